@@ -2,6 +2,7 @@
   Round trip of `encoding/json` on generated Go types: lemmas per IR kind and the induction.
 -/
 import Cog.Sem.CodecLemmas
+import Cog.Sem.AnyLemmas
 import Cog.OMap.Lemmas
 namespace Cog.Sem
 open Cog.IR GoVal
@@ -652,8 +653,8 @@ theorem roundtrip_core (ss : Schemas) : ∀ n, IH n ss := by
             all_goals
               rw [hj] at h
               refine ⟨.iface _, decodeScalar_any_nonnull _ (by simp [Json.isNull]) h.1, ⟨?_, ?_, ?_⟩⟩
-              · simp only [goEncode]; rw [ifaceEnc_noObjs _ h.2]; exact sub_refl_noObjs _ h.2
-              · simp only [goEncode]; rw [ifaceEnc_noObjs _ h.2]; exact sub_refl_noObjs _ h.2
+              · simp only [goEncode]; exact (iface_sub _ h.2).1
+              · simp only [goEncode]; exact (iface_sub _ h.2).2
               · intro he; simp [isEmpty] at he
         · simp only [ha, if_false] at h ⊢
           have hcoll : isCollOrAny (Ty.scalar kind val cs m) = false := by
